@@ -9,6 +9,7 @@ import (
 	"github.com/zishang520/engine.io-go-parser/packet"
 	"github.com/zishang520/engine.io/v2/log"
 	"github.com/zishang520/engine.io/v2/types"
+	"github.com/zishang520/engine.io/v2/utils"
 	"github.com/zishang520/engine.io/v2/webtransport"
 )
 
@@ -21,6 +22,8 @@ type webTransport struct {
 
 	session *types.WebTransportConn
 	mu      sync.Mutex
+	// batches handed to Send whose writer goroutine has not finished yet
+	sending sync.WaitGroup
 }
 
 // WebTransport transport
@@ -119,6 +122,7 @@ func (w *webTransport) onMessage(data types.BufferInterface) {
 // Writes a packet payload.
 func (w *webTransport) Send(packets []*packet.Packet) {
 	w.SetWritable(false)
+	w.sending.Add(1)
 	go w.send(packets)
 }
 func (w *webTransport) send(packets []*packet.Packet) {
@@ -127,6 +131,7 @@ func (w *webTransport) send(packets []*packet.Packet) {
 		w.SetWritable(true)
 		w.Emit("ready")
 	}()
+	defer w.sending.Done()
 
 	w.mu.Lock()
 	defer w.mu.Unlock()
@@ -208,6 +213,17 @@ func (w *webTransport) write(data types.BufferInterface, _ bool) {
 // Closes the transport.
 func (w *webTransport) DoClose(fn types.Callable) {
 	wt_log.Debug(`closing WebTransport session`)
+	if fn != nil && !w.Discarded() {
+		// an orderly close lets the batch in flight out first (see websocket.DoClose)
+		fn()
+		timer := utils.SetTimeout(func() { w.session.CloseWithError(0, "") }, streamCloseTimeout)
+		go func() {
+			w.sending.Wait()
+			utils.ClearTimeout(timer)
+			w.session.CloseWithError(0, "")
+		}()
+		return
+	}
 	defer w.session.CloseWithError(0, "")
 	if fn != nil {
 		fn()
